@@ -194,6 +194,7 @@ function runOne(code, c) {
   delete g.__f;
   const evalLog = [];
   g.__H = makeH(evalLog);
+  if (c.prelude) vm.runInContext(c.prelude, ctx);
   try {
     if (mode === 'cjs') {
       const fn = vm.runInContext('(function(exports,require,module){' + code + '\n})', ctx);
